@@ -22,12 +22,14 @@
    fastpasta/src/analyze/validators/its/data_words/ob.rs
    fastpasta/src/analyze/validators/its/lib.rs
    fastpasta/src/analyze/validators/its/its_payload_fsm_cont.rs
+   fastpasta/src/analyze/validators/lib.rs
 -/
 import FastPasta.Spec.RsPrelude
 import FastPasta.Spec.WordsSrcGen
 import FastPasta.Spec.RdhSrcGen
 import FastPasta.Spec.StateSrcGen
 import FastPasta.Spec.FsmSrcGen
+import FastPasta.Spec.PayloadSrcGen
 set_option linter.unusedVariables false
 namespace FastPasta
 namespace SrcLink
@@ -72,7 +74,7 @@ def CdpRunningValidator.report_errors (self_ : CdpRunningValidator) (errors : Rs
   (let self__1 := { self_ with f_out := (self_.f_out ++ [Rs.Report.mk (SrcState.CdpTracker.current_word_mem_pos (self_.f_tracker)) errors word_slice true true]) }; ((), self__1))
 
 def CdpRunningValidator.check_rdh_at_ddw0 (self_ : CdpRunningValidator) (ddw0_slice : Bytes) : (Unit × CdpRunningValidator) :=
-  (if ((SrcState.ItsRdhValidator.check_at_ddw0 (self_.f_rdh_validator))).isErr then (let c_45 := (CdpRunningValidator.report_errors (self_) (((SrcState.ItsRdhValidator.check_at_ddw0 (self_.f_rdh_validator))).errStr) (ddw0_slice)); (let self__2 := c_45.2; ((), self__2))) else ((), self_))
+  (if ((SrcState.ItsRdhValidator.check_at_ddw0 (self_.f_rdh_validator))).isErr then (let c_49 := (CdpRunningValidator.report_errors (self_) (((SrcState.ItsRdhValidator.check_at_ddw0 (self_.f_rdh_validator))).errStr) (ddw0_slice)); (let self__2 := c_49.2; ((), self__2))) else ((), self_))
 
 def CdpRunningValidator.preprocess_ddw0 (self_ : CdpRunningValidator) (ddw0_slice : Bytes) : (Unit × CdpRunningValidator) :=
   (let ddw0 := (Rs.Res.unwrapD (SrcWords.Ddw0.from_buf (ddw0_slice))); (let self__2 := (if ((SrcState.StatusWordContainer.sanity_check_ddw0 (self_.f_status_words) (ddw0))).isErr then (let c_3 := (CdpRunningValidator.report_error (self_) (((Rs.Str.lit true [60]).app ((SrcState.StatusWordContainer.sanity_check_ddw0 (self_.f_status_words) (ddw0))).errStr)) (ddw0_slice)); (let self__3 := c_3.2; self__3)) else self_); (let self_ := (if self__2.f_running_checks_enabled then (let c_4 := (CdpRunningValidator.check_rdh_at_ddw0 (self__2) (ddw0_slice)); (let self_ := c_4.2; self_)) else self__2); (let c_5 := (SrcState.StatusWordContainer.replace_ddw (self_.f_status_words) (ddw0)); (let self__5 := { self_ with f_status_words := c_5.2 }; ((), self__5))))))
@@ -99,10 +101,10 @@ def CdpRunningValidator.preprocess_tdt (self_ : CdpRunningValidator) (tdh_slice 
   (let tdt := (Rs.Res.unwrapD (SrcWords.Tdt.from_buf (tdh_slice))); (let self__2 := (if ((SrcState.StatusWordContainer.sanity_check_tdt (self_.f_status_words) (tdt))).isErr then (let c_14 := (CdpRunningValidator.report_error (self_) (((Rs.Str.lit true [50]).app ((SrcState.StatusWordContainer.sanity_check_tdt (self_.f_status_words) (tdt))).errStr)) (tdh_slice)); (let self__3 := c_14.2; self__3)) else self_); (let c_15 := (SrcState.StatusWordContainer.replace_tdt (self__2.f_status_words) (tdt)); (let self_ := { self__2 with f_status_words := c_15.2 }; ((), self_)))))
 
 def CdpRunningValidator.process_ib_data_word (self_ : CdpRunningValidator) (ib_slice : Bytes) : (Unit × CdpRunningValidator) :=
-  (if (!self_.f_running_checks_enabled) then ((), self_) else (let self__1 := (if ((SrcWords.IbDataWordValidator.check (ib_slice) ((SrcWords.Ihw.active_lanes ((Rs.unwrapD (SrcState.StatusWordContainer.ihw (self_.f_status_words)))))))).isErr then (let c_46 := (CdpRunningValidator.report_error (self_) (((SrcWords.IbDataWordValidator.check (ib_slice) ((SrcWords.Ihw.active_lanes ((Rs.unwrapD (SrcState.StatusWordContainer.ihw (self_.f_status_words)))))))).errStr) (ib_slice)); (let self__2 := c_46.2; self__2)) else self_); ((), self__1)))
+  (if (!self_.f_running_checks_enabled) then ((), self_) else (let self__1 := (if ((SrcWords.IbDataWordValidator.check (ib_slice) ((SrcWords.Ihw.active_lanes ((Rs.unwrapD (SrcState.StatusWordContainer.ihw (self_.f_status_words)))))))).isErr then (let c_50 := (CdpRunningValidator.report_error (self_) (((SrcWords.IbDataWordValidator.check (ib_slice) ((SrcWords.Ihw.active_lanes ((Rs.unwrapD (SrcState.StatusWordContainer.ihw (self_.f_status_words)))))))).errStr) (ib_slice)); (let self__2 := c_50.2; self__2)) else self_); ((), self__1)))
 
 def CdpRunningValidator.process_ob_data_word (self_ : CdpRunningValidator) (ob_slice : Bytes) : (Unit × CdpRunningValidator) :=
-  (if (!self_.f_running_checks_enabled) then ((), self_) else (let self__1 := (if ((SrcWords.ObDataWordValidator.check (ob_slice) ((SrcWords.Ihw.active_lanes ((Rs.unwrapD (SrcState.StatusWordContainer.ihw (self_.f_status_words)))))))).isErr then (let c_47 := (CdpRunningValidator.report_errors (self_) (((SrcWords.ObDataWordValidator.check (ob_slice) ((SrcWords.Ihw.active_lanes ((Rs.unwrapD (SrcState.StatusWordContainer.ihw (self_.f_status_words)))))))).errStr) (ob_slice)); (let self__2 := c_47.2; self__2)) else self_); ((), self__1)))
+  (if (!self_.f_running_checks_enabled) then ((), self_) else (let self__1 := (if ((SrcWords.ObDataWordValidator.check (ob_slice) ((SrcWords.Ihw.active_lanes ((Rs.unwrapD (SrcState.StatusWordContainer.ihw (self_.f_status_words)))))))).isErr then (let c_51 := (CdpRunningValidator.report_errors (self_) (((SrcWords.ObDataWordValidator.check (ob_slice) ((SrcWords.Ihw.active_lanes ((Rs.unwrapD (SrcState.StatusWordContainer.ihw (self_.f_status_words)))))))).errStr) (ob_slice)); (let self__2 := c_51.2; self__2)) else self_); ((), self__1)))
 
 def CdpRunningValidator.preprocess_data_word (self_ : CdpRunningValidator) (data_word_slice : Bytes) : (Unit × CdpRunningValidator) :=
   (let ID_INDEX := 9; (let self__2 := (if ((SrcState.CdpTracker.start_of_data (self_.f_tracker)) && ((bAt data_word_slice ID_INDEX) == SrcWords.Cdw.ID)) then (let c_16 := (CdpRunningValidator.process_cdw (self_) (data_word_slice)); (let self__3 := c_16.2; self__3)) else (let self__2 := (if ((SrcWords.DataWordSanityChecker.check_any (data_word_slice))).isErr then (let c_17 := (CdpRunningValidator.report_error (self_) (((Rs.Str.lit true [70]).app ((SrcWords.DataWordSanityChecker.check_any (data_word_slice))).errStr)) (data_word_slice)); (let self__3 := c_17.2; self__3)) else self_); (let id_3_msb := ((bAt data_word_slice ID_INDEX) >>> 5); (let self_ := (if (id_3_msb == 1) then (let c_18 := (CdpRunningValidator.process_ib_data_word (self__2) (data_word_slice)); (let self_ := c_18.2; self_)) else (let self_ := (if (id_3_msb == 2) then (let c_19 := (CdpRunningValidator.process_ob_data_word (self__2) (data_word_slice)); (let self_ := c_19.2; self_)) else self__2); self_)); self_)))); (let c_20 := (SrcState.CdpTracker.set_data_seen (self__2.f_tracker)); (let self_ := { self__2 with f_tracker := c_20.2 }; ((), self_)))))
@@ -121,6 +123,15 @@ def CdpRunningValidator.check (self_ : CdpRunningValidator) (gbt_word : Bytes) :
 
 def CdpRunningValidator.set_current_rdh (self_ : CdpRunningValidator) (rdh : SrcRdh.RdhCru) (rdh_mem_pos : Nat) : (Unit × CdpRunningValidator) :=
   (let self__1 := { self_ with f_tracker := (SrcState.CdpTracker.new (rdh) (rdh_mem_pos)) }; (let self_ := { self__1 with f_rdh_validator := (SrcState.ItsRdhValidator.new (rdh)) }; ((), self_)))
+
+def CdpRunningValidator.report_at (self_ : CdpRunningValidator) (pos : Nat) (error : Rs.Str) : (Unit × CdpRunningValidator) :=
+  (let self__1 := { self_ with f_out := (self_.f_out ++ [Rs.Report.mk pos error [] false false]) }; ((), self__1))
+
+def CdpRunningValidator.reset_fsm (self_ : CdpRunningValidator) : (Unit × CdpRunningValidator) :=
+  (let self__1 := { self_ with f_its_state_machine := SrcFsm.initial }; ((), self__1))
+
+def do_payload_checks (cdp : (SrcRdh.RdhCru × Bytes × Nat)) (cdp_validator : CdpRunningValidator) : CdpRunningValidator :=
+  (let (rdh, payload, rdh_mem_pos) := cdp; (let c_45 := (CdpRunningValidator.set_current_rdh (cdp_validator) (rdh) (rdh_mem_pos)); (let cdp_validator_5 := c_45.2; (let m_46 := (SrcPayload.preprocess_payload (payload)); (if (m_46).isErr then (let e := (m_46).errStr; (let c_47 := (CdpRunningValidator.report_at (cdp_validator_5) (rdh_mem_pos) (((Rs.Str.lit true []).app e))); (let cdp_validator := c_47.2; (let c_48 := (CdpRunningValidator.reset_fsm (cdp_validator)); (let cdp_validator_11 := c_48.2; cdp_validator_11))))) else (let gbt_word_chunks := (Rs.Res.unwrapD m_46); (let cdp_validator := (List.foldl (fun v w => (CdpRunningValidator.check v (w.take 10)).2) cdp_validator_5 gbt_word_chunks); cdp_validator)))))))
 
 /-! kernel-checked: every literal mask was split into contiguous runs correctly -/
 end SrcLink
